@@ -339,15 +339,29 @@ func c03R4(r *Report, c *pieceCtx) {
 	}
 	r.Fn(Del)
 	var latch *ssa.Store
+	var latchAt ssa.Instruction // the latch, or the call in Del of the private helper that sets it (markDeleted())
 	var delCalls []*ssa.Call
+	delLikeD := delLikeFuncs(r, del)
 	allInstrs(Del, func(in ssa.Instruction) {
 		if st, ok := isStoreToField(in, c.deleted); ok {
 			if b, isb := constBool(st.Val); isb && b {
-				latch = st
+				latch, latchAt = st, st
 			}
 		}
-		if calleeOf(in) == del {
+		if delLikeD[calleeOf(in)] {
 			delCalls = append(delCalls, in.(*ssa.Call))
+		}
+		if cc, ok := in.(*ssa.Call); ok && latch == nil {
+			if h := cc.Call.StaticCallee(); h != nil && h.Blocks != nil && relPkg(h) == "tor/piece" && h != del && !delLikeD[h] && p.inUnitOf(h, Del) {
+				allInstrs(h, func(i2 ssa.Instruction) {
+					if st, ok := isStoreToField(i2, c.deleted); ok {
+						if b, isb := constBool(st.Val); isb && b {
+							latch, latchAt = st, cc
+							r.Fn(h)
+						}
+					}
+				})
+			}
 		}
 	})
 	if latch == nil {
@@ -358,7 +372,7 @@ func c03R4(r *Report, c *pieceCtx) {
 		delUnlocks := anyInstr(del, c.isUnlock) != nil
 		before := true
 		for _, dc := range delCalls {
-			if !instrDominates(latch, dc) {
+			if !instrDominates(latchAt, dc) {
 				before = false
 			}
 		}
@@ -429,6 +443,7 @@ func c03R5(r *Report) {
 	}
 	r.Fn(exp)
 	fparam := exp.Params[len(exp.Params)-1]
+	delLike := delLikeFuncs(r, del)
 	n := 0
 	allInstrs(exp, func(in ssa.Instruction) {
 		c, ok := in.(*ssa.Call)
@@ -446,7 +461,7 @@ func c03R5(r *Report) {
 				continue
 			}
 			cc, ok := ex.Tuple.(*ssa.Call)
-			if !ok || cc.Call.StaticCallee() != del {
+			if !ok || !delLike[cc.Call.StaticCallee()] {
 				continue
 			}
 			if dc != nil && dc != cc {
@@ -468,7 +483,7 @@ func c03R5(r *Report) {
 		for _, g := range guardsOf(c.Block()) {
 			g = g.norm()
 			if ex, ok := g.Cond.(*ssa.Extract); ok {
-				if cc, ok := ex.Tuple.(*ssa.Call); ok && cc.Call.StaticCallee() == del {
+				if cc, ok := ex.Tuple.(*ssa.Call); ok && delLike[cc.Call.StaticCallee()] {
 					continue
 				}
 			}
@@ -1144,4 +1159,45 @@ func rangeExhaustive(r *Report, rule string, sel func(caller *ssa.Function) bool
 // isAtomicAdd: atomic.AddInt64(&x, d), or x.Add(d) on an atomic.Int64 (the delta is the second argument either way).
 func isAtomicAdd(in ssa.Instruction) bool {
 	return isStdCall(in, "sync/atomic", "", "AddInt64") || isStdCall(in, "sync/atomic", "Int64", "Add")
+}
+
+// delLikeFuncs: del, and private wrappers of the package that take the lock around it and hand its results on
+// unchanged (lockedDel(p, force) { Lock; defer Unlock; return ps.del(p, force) }).
+func delLikeFuncs(r *Report, del *ssa.Function) map[*ssa.Function]bool {
+	p := r.P
+	delLike := map[*ssa.Function]bool{del: true}
+	for _, wf := range p.SrcFuncs() {
+		if relPkg(wf) != "tor/piece" || wf.Parent() != nil || wf == del || len(wf.Params) != len(del.Params) {
+			continue
+		}
+		good := len(returnsOf(wf)) > 0
+		for _, ret := range returnsOf(wf) {
+			res := retResults(ret)
+			if len(res) != 2 {
+				good = false
+				break
+			}
+			e0, ok0 := res[0].(*ssa.Extract)
+			e1, ok1 := res[1].(*ssa.Extract)
+			if !ok0 || !ok1 || e0.Tuple != e1.Tuple || e0.Index != 0 || e1.Index != 1 {
+				good = false
+				break
+			}
+			dcall, okc := e0.Tuple.(*ssa.Call)
+			if !okc || dcall.Call.StaticCallee() != del {
+				good = false
+				break
+			}
+			for i, a := range dcall.Call.Args {
+				if a != ssa.Value(wf.Params[i]) {
+					good = false
+				}
+			}
+		}
+		if good {
+			delLike[wf] = true
+			r.Fn(wf)
+		}
+	}
+	return delLike
 }
